@@ -593,7 +593,8 @@ struct Rng
 
 void random_program(Rng& rng, unsigned maxsurf, unsigned maxnodes, verif::NdjsonWriter& out)
 {
-    unsigned const ns = 2 + rng(maxsurf - 1);  // 2..maxsurf
+    // 2..maxsurf surfaces, small counts more likely (validation cost grows with 2^ns)
+    unsigned const ns = 2 + std::min(rng(maxsurf - 1), rng(maxsurf - 1));
     unsigned const target = 8 + rng(maxnodes - 7);  // 8..maxnodes
     bool const deep = rng.chance(25);
     CsgTree tree;
